@@ -582,6 +582,7 @@ def efunCall (f : String) (args : List (Value R)) : Res (Value R) :=
   | "sizeof", [.str s] => .ok (.int s.length)
   | "sizeof", [_] => .ok (.int 0)
   | "strlen", [.str s] => .ok (.int s.length)
+  | "allocate_mapping", [.int _] => .ok (.map [])     -- presizing is not observable
   | "#if", [v] => .ok v          -- value of a preprocessor condition (64-bit integers in the reference semantics)
   | "allocate", [.int n] => if 0 ≤ n ∧ n ≤ 15000 then .ok (.arr (List.replicate n.toNat (.int 0))) else .err
   | "allocate_buffer", [.int n] => if 0 ≤ n ∧ n ≤ 100000 then .ok (.buf (List.replicate n.toNat 0)) else .err
@@ -671,10 +672,23 @@ mutual
       | .map kvs => do
         let (ps, st) ← evalPairs fuel st kvs
         pure (.map (ps.foldl (fun acc e => mapInsert S.keyEq acc e.1 e.2) []), st)
-      | .efun f args => do
-        let (vs, st) ← evalList fuel st args
-        let r ← efunCall f vs
-        pure (r, st)
+      | .efun f args =>
+        -- map_delete (m, k) removes the key from the mapping held by the variable m (the only mutating efun of the core)
+        match f == "map_delete", args with
+        | true, [.loc v, ke] => do
+          let (kv, st) ← evalE fuel st ke
+          match getVar st true v with
+          | .map m => pure (.int 0, setVar st true v (.map (m.filter (fun e => !S.keyEq e.1 kv))))
+          | _ => .err
+        | true, [.glob v, ke] => do
+          let (kv, st) ← evalE fuel st ke
+          match getVar st false v with
+          | .map m => pure (.int 0, setVar st false v (.map (m.filter (fun e => !S.keyEq e.1 kv))))
+          | _ => .err
+        | _, _ => do
+          let (vs, st) ← evalList fuel st args
+          let r ← efunCall f vs
+          pure (r, st)
       | .call f args => do
         let (vs, st) ← evalList fuel st args
         match P.fns.find? (fun fn => fn.name == f) with
